@@ -49,6 +49,35 @@ var pinnedCases = []pinnedCase{
 	{"C20", "loader-return-value-wins-over-stored-value", `package.preload.m = function(n) package.loaded[n] = "set" return "returned" end return require "m", package.loaded.m`, "returned|returned", nil},
 	{"C20", "replaced-package.loaders-is-searched", `package.loaders = {function(n) return function() return "custom:" .. n end end} return require "zzz"`, "custom:zzz", nil},
 	{"C20", "package.loaders-must-be-a-table", `package.loaders = 5 return pcall(require, "zzz")`, "false", nil},
+	// ---- fifth batch of repairs (conformance with the Lua 5.1 C sources)
+	{"C14", "match-failure-is-one-nil", `return string.match("a","b") == nil, select("#", string.match("a","b"))`, "true|1", nil},
+	{"C14", "match-init-is-clamped", `return string.match("abc","()",10), string.match("","",2) == ""`, "4|true", nil},
+	{"C14", "gsub-number-replacement", `return string.gsub("abc","b",1)`, "a1c|1", nil},
+	{"C14", "gsub-negative-max", `return string.gsub("abc","b","x",-3)`, "abc|0", nil},
+	{"C14", "gsub-invalid-replacement-value", `local ok,msg=pcall(string.gsub,"abc","b",{b={}}) return ok,(msg:gsub("^.-: ",""))`, "false|invalid replacement value (a table)", nil},
+	{"C14", "set-class-then-dash", `return string.find("-","[%a-z]"), string.find("z","[%d-z]"), string.find("e","[a-c-e]"), string.find("d","[a-c-e]")`, "1|1|1|nil", nil},
+	{"C14", "gsub-many-matches-is-linear", `local r,n=string.gsub(string.rep("a",200000),"a","bc") return #r,n`, "400000|200000", nil},
+	{"C17", "error-level-on-a-tail-call-has-no-position", "local function f() error('boom',2) end local function g() return f() end local function h()\n g()\n end return pcall(h)", "false|boom", nil},
+	{"C17", "error-level-beyond-the-stack", `return pcall(error,"x",50)`, "false|x", nil},
+	{"C17", "error-level-on-a-go-function", `local function e2() error("lvl2",2) end return pcall(e2)`, "false|lvl2", nil},
+	{"C17", "linedefined-of-a-function-statement", "function gk\n(a) end return debug.getinfo(gk,'S').linedefined", "1", nil},
+	{"C17", "main-chunk-lines", `local i=debug.getinfo(1,'S') return i.linedefined,i.lastlinedefined`, "0|0", nil},
+	{"C04", "unm-handler-gets-the-operand-twice", `return -setmetatable({}, {__unm=function(a,b) return a==b end})`, "true", nil},
+	{"C04", "numeric-strings-are-converted-before-handlers", `local mt=getmetatable("") mt.__add=function() return "meta" end mt.__unm=mt.__add local a,b="10"+1,-"2" mt.__add=nil mt.__unm=nil return a,b`, "11|-2", nil},
+	{"C04", "callable-table-as-handler", `local c=setmetatable({}, {__call=function() return "called" end}); return pcall(function() return setmetatable({}, {__add=c})+1 end)`, "true|called", nil},
+	{"C04", "non-callable-tostring-handler", `local ok,msg=pcall(tostring,setmetatable({}, {__tostring=1})) return ok, msg:find("attempt to call")~=nil`, "false|true", nil},
+	{"C04", "print-validates-tostring", `local ok,msg=pcall(print,setmetatable({}, {__tostring=function() return {} end})) return ok,(msg:gsub("^.-: ",""))`, "false|'tostring' must return a string to 'print'", nil},
+	{"C04", "setmetatable-needs-a-table", `local ok,msg=pcall(setmetatable,1,{}) return ok, msg:find("table expected, got number")~=nil, getmetatable(1)`, "false|true|nil", nil},
+	{"C09", "next-with-a-key-that-is-not-in-the-table", `local ok,msg=pcall(next,{a=1},"zzz") local t={a=1,b=2,c=3} local n=0 for k in pairs(t) do t[k]=nil n=n+1 end return ok,(msg:gsub("^.-: ","")),n,next(t)`, "false|invalid key to 'next'|3|nil", nil},
+	{"C18", "concat-range-is-not-clamped", `local ok,msg=pcall(table.concat,{1,2,3},",",0,2) local ok2,msg2=pcall(table.concat,{1,2,3},",",1,5) return ok,(msg:gsub("^.-: ","")),ok2,(msg2:gsub("^.-: ","")),table.concat({1,2,3},",",2,3)`, "false|invalid value (nil) at index 0 in table for 'concat'|false|invalid value (nil) at index 4 in table for 'concat'|2,3", nil},
+	{"C18", "concat-number-separator", `return table.concat({1,2,3}, 0)`, "10203", nil},
+	{"C18", "insert-argument-count", `local ok,msg=pcall(table.insert,{},1,2,3) return ok,(msg:gsub("^.-: ",""))`, "false|wrong number of arguments to 'insert'", nil},
+	{"C18", "remove-outside-the-list", `local t={1,2,3} return select("#",table.remove(t,0)), select("#",table.remove(t,-1)), #t, table.remove(t,1), #t`, "0|0|3|1|2", nil},
+	{"C18", "maxn-of-any-numeric-key", `return table.maxn({[1.5]=true}), table.maxn({[2^40]=true})==2^40, table.maxn({1,2,3})`, "1.5|true|3", nil},
+	{"C16", "date-yday", `return os.date("!%j",86400*40), os.date("!*t",86400*40).yday`, "041|41", nil},
+	{"C16", "tonumber-0x-with-base-16", `return tonumber("0x10",16), tonumber("ff",16), tonumber("0x",16)`, "16|255|nil", nil},
+	{"C02", "select-count-marker", `return select("#x",1,2)`, "2", nil},
+	{"C20", "not-found-message-format", `package.path="./?.lua" local ok,msg=pcall(require,"zzz") return ok,(msg:match("module.*$"):gsub("\n\t",";"))`, "false|module 'zzz' not found:;no field package.preload['zzz'];no file './zzz.lua'", nil},
 	// re-entrancy: a library function whose callback runs the same library function again (each case
 	// twice in one chunk: scratch state left by the first round must not leak into the second)
 	{"C14", "reentrant/gsub-function-inside-gsub-function", `local function up(w) return (w:gsub("%a", function(c) return c:upper() end)) end local function run() return (("ab cd ef"):gsub("%a+", function(w) return "<" .. up(w) .. ">" end)) end local a = run() local b = run() return a, b, (("x y z w"):gsub("%a", function(c) return (c .. c):gsub("%a", function(d) return d:upper() end) end))`, "<AB> <CD> <EF>|<AB> <CD> <EF>|XX YY ZZ WW", nil},
@@ -263,5 +292,91 @@ return depth, tostring(ok), tostring(m), n`
 				}
 			}
 		}
+	}
+}
+
+// pinnedGoAPI5: Go-API cases of the fifth batch of repairs.
+func pinnedGoAPI5(r *harness.Run, prop string) {
+	check := func(sig string, f func(L *lua.LState) string) {
+		L := lua.NewState()
+		defer L.Close()
+		problem := ""
+		func() {
+			defer func() {
+				if rec := recover(); rec != nil {
+					problem = fmt.Sprintf("Go panic: %v", rec)
+				}
+			}()
+			problem = f(L)
+		}()
+		r.Eval(sig, true, func() interface{} { return map[string]interface{}{"case": "pinned Go API", "name": sig} })
+		if problem != "" {
+			r.Violation(sig, sig+": "+problem, map[string]interface{}{"name": sig})
+		}
+	}
+	if prop == "C10" {
+		check("goapi/concat-no-operands", func(L *lua.LState) string {
+			if s := L.Concat(); s != "" {
+				return fmt.Sprintf("Concat() on an empty stack gives %q", s)
+			}
+			L.Push(lua.LString("caller-value"))
+			if s := L.Concat(); s != "" || L.GetTop() != 1 {
+				return fmt.Sprintf("Concat() gives %q, top %d", s, L.GetTop())
+			}
+			if s := L.Concat(lua.LString("x")); s != "x" {
+				return fmt.Sprintf("Concat(x) gives %q", s)
+			}
+			return ""
+		})
+		check("goapi/get-upvalue-index-at-top-level", func(L *lua.LState) string {
+			if v := L.Get(lua.UpvalueIndex(1)); v != lua.LNil {
+				return fmt.Sprintf("got %v", v)
+			}
+			return ""
+		})
+	}
+	if prop == "C06" {
+		check("goapi/refused-resume-leaves-no-frame", func(L *lua.LState) string {
+			if err := L.DoString(`count = 0 function body(...) count = count + 1 coroutine.yield() return "done" end`); err != nil {
+				return err.Error()
+			}
+			co, _ := L.NewThread()
+			fn := L.GetGlobal("body").(*lua.LFunction)
+			many := make([]lua.LValue, 200000)
+			for i := range many {
+				many[i] = lua.LNumber(i)
+			}
+			if st, err, _ := L.Resume(co, fn, many...); st != lua.ResumeError || err == nil {
+				return "a resume with 200000 arguments was not refused"
+			}
+			if st, _, _ := L.Resume(co, fn, lua.LNumber(1)); st != lua.ResumeYield {
+				return fmt.Sprintf("second resume: state %v", st)
+			}
+			st, _, vals := L.Resume(co, fn)
+			if st != lua.ResumeOK || len(vals) != 1 || vals[0] != lua.LString("done") {
+				return fmt.Sprintf("third resume: state %v values %v", st, vals)
+			}
+			if c := L.GetGlobal("count"); c != lua.LNumber(1) {
+				return fmt.Sprintf("the body ran %v times", c)
+			}
+			return ""
+		})
+		check("goapi/go-body-yields", func(L *lua.LState) string {
+			runs := 0
+			goFn := L.NewFunction(func(L *lua.LState) int { runs++; return L.Yield(lua.LString("yielded")) })
+			co, _ := L.NewThread()
+			st, _, vals := L.Resume(co, goFn, lua.LNumber(0))
+			if st != lua.ResumeYield || len(vals) != 1 || vals[0] != lua.LString("yielded") || L.Status(co) != "suspended" {
+				return fmt.Sprintf("first resume: state %v values %v status %s", st, vals, L.Status(co))
+			}
+			st, _, vals = L.Resume(co, goFn, lua.LNumber(10), lua.LString("arg"))
+			if st != lua.ResumeOK || len(vals) != 2 || L.Status(co) != "dead" || runs != 1 {
+				return fmt.Sprintf("second resume: state %v values %v status %s, body ran %d times", st, vals, L.Status(co), runs)
+			}
+			if st, err, _ := L.Resume(co, goFn); st != lua.ResumeError || err == nil {
+				return "a third resume of the dead thread was not refused"
+			}
+			return ""
+		})
 	}
 }
